@@ -544,7 +544,7 @@ def explore(tier, seed, res=None, replay=None):
                 "(permuted / resampled / relabelled / reassigned / merged groups / fresh), the second "
                 "design judged by the block structure; coding-rule stage on the training "
                 "matrix and on evaluate_new_data(training frame)")
-    n_cases = 400 if tier == "quick" else 15000
+    n_cases = 400 if tier == "quick" else 11000
     cases = []
     if replay is not None:
         cases = [(replay["formula"], replay.get("seed_path", 0))]
